@@ -3,8 +3,10 @@ package props
 import (
 	"context"
 	"fmt"
+	"runtime"
 	"strings"
 	"sync"
+	"sync/atomic"
 	"testing"
 	"time"
 
@@ -20,7 +22,7 @@ import (
 // slot the reader holds while part of the reader's batch is still in the write buffer) is hunted with
 // real goroutines and a generous wall-clock limit: every trial normally ends within milliseconds.
 func TestVerif_C02_FullQueuePartialFlush(t *testing.T) {
-	c := stat.For("C02", "realtime-"+queueLabel()).Rule("real-time trials against the fake server: ring/flow-buffer of 2-4 slots, write buffer of 32-256 bytes, 2-5 callers issuing 5-20 calls each, one of them DoMulti batches whose encoding exceeds the write buffer (so the batch is flushed piecemeal while the queue is full); oracle: every caller finishes within 10 s of wall-clock time (a trial takes milliseconds); non-trivial = more callers than slots and a batch larger than the write buffer")
+	c := stat.For("C02", "realtime-"+queueLabel()).Rule("real-time trials against the fake server: ring/flow-buffer of 2-4 slots, write buffer of 32-256 bytes, 2-5 callers issuing 5-20 calls each, one of them DoMulti batches whose encoding exceeds the write buffer (so the batch is flushed piecemeal while the queue is full); oracle: no state in which no call completes for 20 s while every goroutine of the process is blocked (not running/runnable/sleeping), sampled every 2 s - independent of machine speed; non-trivial = more callers than slots and a batch larger than the write buffer")
 	defer c.Flush()
 	rapid.Check(t, func(rt *rapid.T) {
 		scale := rapid.IntRange(1, 2).Draw(rt, "ringScale")
@@ -43,6 +45,8 @@ func TestVerif_C02_FullQueuePartialFlush(t *testing.T) {
 			t.Fatal(err)
 		}
 		var wg sync.WaitGroup
+		var progress atomic.Int64
+		waited := 0
 		arg := strings.Repeat("x", big)
 		for k := 0; k < callers; k++ {
 			wg.Add(1)
@@ -55,8 +59,10 @@ func TestVerif_C02_FullQueuePartialFlush(t *testing.T) {
 							cmds[j] = cl.B().Set().Key(fmt.Sprintf("b%d", j)).Value(arg).Build()
 						}
 						cl.DoMulti(context.Background(), cmds...)
+						progress.Add(1)
 					} else {
 						cl.Do(context.Background(), cl.B().Get().Key("a").Build())
+						progress.Add(1)
 					}
 				}
 			}(k)
@@ -67,13 +73,51 @@ func TestVerif_C02_FullQueuePartialFlush(t *testing.T) {
 		plan := map[string]any{"ring_scale": scale, "write_buffer": wbuf, "callers": callers, "calls": calls, "big_arg": big, "batch": batch}
 		c.Eval(nt, fmt.Sprint(plan))
 		c.Sample(nt, func() any { return plan })
-		select {
-		case <-done:
-			cl.Close()
-			w.Stop()
-		case <-time.After(10 * time.Second):
-			// the client and its goroutines are wedged: leave them behind
-			c.Fail(rt, "C02.no-deadlock", fmt.Sprintf("callers were still blocked after 10 s of wall-clock time (%v)", plan), plan)
+		// Deadlock verdict that does not depend on machine speed: no call completed during 10 consecutive
+		// samples taken 2 s apart AND in the last three samples no goroutine of the process was running,
+		// runnable or sleeping (a starved but live client always shows runnable goroutines).
+		idle, last := 0, int64(-1)
+		for {
+			select {
+			case <-done:
+				cl.Close()
+				w.Stop()
+				return
+			case <-time.After(2 * time.Second):
+			}
+			if p := progress.Load(); p != last {
+				last, idle = p, 0
+				continue
+			}
+			if live := c02LiveGoroutines(); live > 0 {
+				idle = min(idle, 7) // keep waiting: something can still run
+				if waited++; waited > 150 {
+					c.Inconclusive("no-progress-but-runnable-goroutines")
+					return
+				}
+				continue
+			}
+			if idle++; idle >= 10 {
+				// the client and its goroutines are wedged: leave them behind
+				c.Fail(rt, "C02.no-deadlock", fmt.Sprintf("no call completed for 20 s and every goroutine is blocked for ever (%v, %d calls done)", plan, last), plan)
+			}
 		}
 	})
+}
+
+// c02LiveGoroutines counts goroutines (other than the caller) that can still make progress on their own.
+func c02LiveGoroutines() int {
+	buf := make([]byte, 1<<20)
+	buf = buf[:runtime.Stack(buf, true)]
+	n := 0
+	for i, g := range strings.Split(string(buf), "\n\n") {
+		if i == 0 {
+			continue // the caller
+		}
+		head, _, _ := strings.Cut(g, "\n")
+		if strings.Contains(head, "[running") || strings.Contains(head, "[runnable") || strings.Contains(head, "[sleep") || strings.Contains(head, "[IO wait") || strings.Contains(head, "[syscall") {
+			n++
+		}
+	}
+	return n
 }
